@@ -16,7 +16,7 @@ func init() {
 			"and inserted only by Add's helper — otherwise the conditional close in the goroutine can miss its socket; (ARM) every write through an association extends the read deadline before the datagram is sent, on all paths " +
 			"(a write that skips it can leave the association without any deadline, so it is never reclaimed), and on the write path the one-shot fast-close latch is consumed before the deadline is extended, never after; (MONOTONE) a deadline derived from now+timeout is installed only on the After(current deadline) edge and recorded, the only other " +
 			"deadline write is the immediate fast-close inside the sync.Once reached from the read side; (SHUTDOWN) the datagram loop defers the table's Close before its first read and Close visits every entry under the write lock; " +
-			"(DNS) the DNS timeout constant is 17 s and DNS is decided from port 53 of the address being written.",
+			"(DNS) the DNS timeout constant is 17 s and DNS is decided from port 53 of the address being written. (LOOKUP) the table lookup is exact, so the delete-by-key teardown always hits its own entry; the immediate fast-close expiry is taken only when the datagram read came from an address the port-53 classifier accepts.",
 		NotDecided: "every 'at least / within bounded time' clause (timing); kernel behaviour of deadlines.",
 	})
 }
